@@ -661,7 +661,6 @@ func (v *PolicyVerifier) verifyRelativeForRef(ctx context.Context, firstEntry, l
 		// fix. Entries prior to that one in the queue are considered invalid
 		// and must be skipped
 		fixed := false
-		var fixEntry *rsl.ReferenceEntry
 		invalidIntermediateEntries := []*rsl.ReferenceEntry{}
 		newEntryQueue := []rsl.ReferenceUpdaterEntry{}
 	lookForFixes:
@@ -702,7 +701,6 @@ func (v *PolicyVerifier) verifyRelativeForRef(ctx context.Context, firstEntry, l
 					if !newEntry.SkippedBy(annotations[newEntry.ID.String()]) {
 						slog.Debug("Fix entry found, proceeding with regular verification workflow...")
 						fixed = true
-						fixEntry = newEntry
 						newEntryQueue = append(newEntryQueue, entries...)
 					}
 				}
@@ -737,9 +735,11 @@ func (v *PolicyVerifier) verifyRelativeForRef(ctx context.Context, firstEntry, l
 
 		entries = newEntryQueue
 
-		if v.persistentCacheEnabled && recordLastVerified {
-			v.persistentCache.SetLastVerifiedEntryForRef(fixEntry.RefName, fixEntry.GetNumber(), fixEntry.GetID())
-		}
+		// The fix entry is not recorded as the last verified entry for the
+		// ref in the persistent cache: it is accepted for restoring the last
+		// good state, not verified against the policy, so a later
+		// verification resuming from it would verify it on its own and could
+		// reject a history that verifies from the start.
 	}
 
 	return nil
